@@ -104,6 +104,14 @@ def run(ck):
             seqs.append(w)
         if rng.chance(1, 3): seqs.append(D)
         dlines.append('dmat ' + ' '.join(gen.hexs(x) for x in seqs))
+    # the length term MIN(10000, (l1+l2)/2)/10000: both sides of its cap (one duplicate pair and a short near-fragment each)
+    for (la, lb) in ([(19900, 30), (19990, 30), (22000, 40)] if quick else [(19900, 30), (19970, 30), (19990, 30), (22000, 40), (30000, 700), (10001, 10003)]):
+        D = gen.rand_seq(rng, 'ACGT', la)
+        a0 = rng.below(la - min(lb, la) + 1)
+        w = D[a0:a0 + lb] if lb < la else gen.rand_seq(rng, 'ACGT', lb)
+        if lb < la: w = w[:-1] + rng.choice([c for c in 'ACGT' if c != w[-1]])
+        dlines.append('dmat ' + ' '.join(gen.hexs(x) for x in [D, w]))
+        ck.count('distance matrix: length-term cap family')
     di = ck.run_lines_sharded(kvh, dlines, shards=8, timeout=1800)
     dm = ck.run_lines_sharded(ck.model(), dlines, shards=14, timeout=1800)
     ck.evaluations += len(dlines)
